@@ -96,8 +96,11 @@ class GLeaf:
         return MichelsonType in cs or Micheline in cs or object in cs
 
     def _to_py(self, e, a, k):
-        if a:
-            raise Unsupported('positional flags of to_python_object')
+        # to_python_object(self, try_unpack=False, lazy_diff=False, comparable=False): flags passed positionally or by keyword are the same call
+        names = ('try_unpack', 'lazy_diff', 'comparable')
+        if len(a) > len(names) or any(n in k for n in names[:len(a)]):
+            raise Unsupported('call shape of to_python_object')
+        k = dict(k, **dict(zip(names, a)))
         kw = dict(try_unpack=bool(k.get('try_unpack', False)), comparable=bool(k.get('comparable', False)), lazy_diff=k.get('lazy_diff', False))
         self.calls.append(kw)
         key = (kw['try_unpack'], kw['comparable'])
